@@ -26,12 +26,14 @@ SPEC = {
         "thorough": {"shards": 16, "budget_s": 900},
     },
     "floors": {
-        "quick": {"histories": 25, "queue_partition_checks": 400, "scan_exactness_checks": 300, "syncs_completed": 8, "rewinds": 5, "distinct_nontrivial": 20},
-        "thorough": {"histories": 1000, "queue_partition_checks": 30000, "scan_exactness_checks": 25000, "syncs_completed": 500, "rewinds": 300, "distinct_nontrivial": 200},
+        "quick": {"histories": 25, "queue_partition_checks": 400, "scan_exactness_checks": 300, "syncs_completed": 8, "rewinds": 5, "distinct_nontrivial": 20,
+                  "deep_state_rewind_checks": 5, "heights_compared_across_deep_state_rewinds": 60, "chain_tips_told_at_stability_edge": 8},
+        "thorough": {"histories": 1000, "queue_partition_checks": 30000, "scan_exactness_checks": 25000, "syncs_completed": 500, "rewinds": 300, "distinct_nontrivial": 200,
+                     "deep_state_rewind_checks": 300, "heights_compared_across_deep_state_rewinds": 5000, "chain_tips_told_at_stability_edge": 500},
     },
     "manifest": {
         "technique": "exhaustive small-domain enumeration against a pointwise dominance model (SpanningTree) + trace monitor on the SQLite scan queue with a bounded-progress oracle for a suggestion-following client",
-        "text": "Part (a) enumerates all insertion sequences within a stated bound and compares with the statement's dominance rule; part (b) checks the queue's partition invariants and scan exactness after every operation of generated histories and decides termination of a suggestion-following client as bounded progress. Held on everything executed.",
+        "text": "Part (a) enumerates all insertion sequences within a stated bound and compares with the statement's dominance rule; part (b) checks the queue's partition invariants and scan exactness after every operation of generated histories (including rewind_to_chain_state deeper than the pruning window, which must not lower the priority of an unscanned range, and chain tips told at the edge of the 100-block stability rule) and decides termination of a suggestion-following client as bounded progress. Held on everything executed.",
         "note": "(a) exhaustive only within the bound; (b) sampled histories; liveness restated as a step bound; histories hitting known finding F1 stop early and are counted separately.",
     },
 }
